@@ -329,7 +329,7 @@ var specFuncs = map[string]types.Type{
 	"lsof": types.Typ[types.Int], "nlb": types.Typ[types.Int], "fmtint": types.Typ[types.String], "unfmtint": types.Typ[types.Int],
 	"skipsp": types.Typ[types.Int], "width": types.Typ[types.Int], "rune": types.Typ[types.Int], "u16w": types.Typ[types.Int],
 	"fsread": types.Typ[types.String],
-	"unicodeIsLetter": types.Typ[types.Bool], "trimspace": types.Typ[types.String], "substr": types.Typ[types.String],
+	"unicodeIsLetter": types.Typ[types.Bool], "unicodeIsDigit": types.Typ[types.Bool], "atoiok": types.Typ[types.Bool], "atoival": types.Typ[types.Int], "trimspace": types.Typ[types.String], "substr": types.Typ[types.String],
 }
 
 func (fr *Frame) lookupLocal(name string, st *State) (Val, bool) {
@@ -711,6 +711,15 @@ func (fr *Frame) tr(e ast.Expr, env *Env) Val {
 		}
 		if fn.Name == "concat" {
 			fn.Name = "sconcat"
+		}
+		if fn.Name == "trimright" && len(x.Args) == 2 {
+			// trimright(s, "cutset"): length of strings.TrimRight(s, cutset) for a constant ASCII cutset
+			lit, ok := x.Args[1].(*ast.BasicLit)
+			if !ok {
+				panic("trimright: the cutset must be a string literal")
+			}
+			cs, _ := strconv.Unquote(lit.Value)
+			return Val{fmt.Sprintf("(%s %s)", c.trimRightFn(cs), fr.tr(x.Args[0], env).T), types.Typ[types.Int]}
 		}
 		if rt, ok := specFuncs[fn.Name]; ok {
 			var as []string
